@@ -169,4 +169,227 @@ theorem Inert.cancelKindFor_fst {w0 w : World} (h : Inert w0 w) (hi : EvInv w.ev
   simp only [Bool.and_eq_true, decide_eq_true_eq] at hm
   exact ha (hm.1.2.symm.trans hg.1)
 
+/-! ### object updates that do not change what is available (recording) -/
+
+def resNeed (x : Res) : Nat := if x.holder.isNone then 1 else 0
+def poolNeed (x : Pool) : Nat := min (x.cap - x.inUse) 1
+def bufNeed (x : Buf) : Nat × Nat := (min x.level 1, min (x.cap - x.level) 1)
+def oqNeed (x : OQ) : Nat × Nat := (x.items.length, x.cap - x.items.length)
+def pqNeed (x : PQ) : Nat × Nat := (x.queue.count, x.cap - x.queue.count)
+
+theorem need_eq (w : World) (d : Demand) : need w d = match d with
+    | .resAvail r => ((w.res[r]?).map resNeed).getD 0
+    | .poolAvail p => ((w.pools[p]?).map poolNeed).getD 0
+    | .bufContent b => ((w.bufs[b]?).map fun x => (bufNeed x).1).getD 0
+    | .bufSpace b => ((w.bufs[b]?).map fun x => (bufNeed x).2).getD 0
+    | .oqContent q => ((w.oqs[q]?).map fun x => (oqNeed x).1).getD 0
+    | .oqSpace q => ((w.oqs[q]?).map fun x => (oqNeed x).2).getD 0
+    | .pqContent k => ((w.pqs[k]?).map fun x => (pqNeed x).1).getD 0
+    | .pqSpace k => ((w.pqs[k]?).map fun x => (pqNeed x).2).getD 0
+    | .cond _ _ _ => 0 := by
+  cases d <;> rfl
+
+/-- the tables carry the same static data and the same availability -/
+structure ObjSame (w w' : World) : Prop where
+  res : ∀ i : Nat, (w'.res[i]?).map (fun x => (resStat x, resNeed x)) = (w.res[i]?).map (fun x => (resStat x, resNeed x))
+  pools : ∀ i : Nat, (w'.pools[i]?).map (fun x => (poolStat x, poolNeed x)) = (w.pools[i]?).map (fun x => (poolStat x, poolNeed x))
+  bufs : ∀ i : Nat, (w'.bufs[i]?).map (fun x => (bufStat x, bufNeed x)) = (w.bufs[i]?).map (fun x => (bufStat x, bufNeed x))
+  oqs : ∀ i : Nat, (w'.oqs[i]?).map (fun x => (oqStat x, oqNeed x)) = (w.oqs[i]?).map (fun x => (oqStat x, oqNeed x))
+  pqs : ∀ i : Nat, (w'.pqs[i]?).map (fun x => (pqStat x, pqNeed x)) = (w.pqs[i]?).map (fun x => (pqStat x, pqNeed x))
+
+theorem ObjSame.refl (w : World) : ObjSame w w := ⟨fun _ => rfl, fun _ => rfl, fun _ => rfl, fun _ => rfl, fun _ => rfl⟩
+
+theorem map_pair {α β γ δ : Type} {o o' : Option α} (f : α → β) (g : α → γ) (pr : β × γ → δ)
+    (h : o'.map (fun x => (f x, g x)) = o.map (fun x => (f x, g x))) :
+    o'.map (fun x => pr (f x, g x)) = o.map (fun x => pr (f x, g x)) := by
+  have := congrArg (Option.map pr) h
+  simpa [Option.map_map, Function.comp_def] using this
+
+theorem ObjSame.gOf {w w' : World} (h : ObjSame w w') (d : Demand) : gOf w' d = gOf w d := by
+  cases d <;> simp only [S3.gOf]
+  · exact map_pair resStat resNeed (fun x => x.1) (h.res _)
+  · exact map_pair poolStat poolNeed (fun x => x.1.1) (h.pools _)
+  · exact map_pair bufStat bufNeed (fun x => x.1.1) (h.bufs _)
+  · exact map_pair bufStat bufNeed (fun x => x.1.2.1) (h.bufs _)
+  · exact map_pair oqStat oqNeed (fun x => x.1.1) (h.oqs _)
+  · exact map_pair oqStat oqNeed (fun x => x.1.2.1) (h.oqs _)
+  · exact map_pair pqStat pqNeed (fun x => x.1.1) (h.pqs _)
+  · exact map_pair pqStat pqNeed (fun x => x.1.2.1) (h.pqs _)
+
+theorem ObjSame.need {w w' : World} (h : ObjSame w w') (d : Demand) : need w' d = need w d := by
+  rw [need_eq, need_eq]
+  cases d <;> simp only
+  · exact congrArg (·.getD 0) (map_pair resStat resNeed (fun x => x.2) (h.res _))
+  · exact congrArg (·.getD 0) (map_pair poolStat poolNeed (fun x => x.2) (h.pools _))
+  · exact congrArg (·.getD 0) (map_pair bufStat bufNeed (fun x => x.2.1) (h.bufs _))
+  · exact congrArg (·.getD 0) (map_pair bufStat bufNeed (fun x => x.2.2) (h.bufs _))
+  · exact congrArg (·.getD 0) (map_pair oqStat oqNeed (fun x => x.2.1) (h.oqs _))
+  · exact congrArg (·.getD 0) (map_pair oqStat oqNeed (fun x => x.2.2) (h.oqs _))
+  · exact congrArg (·.getD 0) (map_pair pqStat pqNeed (fun x => x.2.1) (h.pqs _))
+  · exact congrArg (·.getD 0) (map_pair pqStat pqNeed (fun x => x.2.2) (h.pqs _))
+
+theorem Inert.objSame {w0 w w' : World} (h : Inert w0 w) (hev : w'.ev = w.ev) (hg : w'.guards = w.guards)
+    (hp : w'.procs = w.procs) (ho : ObjSame w w') : Inert w0 w' :=
+  h.objs hev hg hp ho.gOf (fun d => Nat.le_of_eq (ho.need d))
+
+macro "obj_side" : tactic =>
+  `(tactic| (intro x hx; simp_all [resStat, poolStat, bufStat, oqStat, pqStat, resNeed, poolNeed, bufNeed, oqNeed, pqNeed]))
+
+theorem Inert.setResSet {w0 w : World} (h : Inert w0 w) (r : Nat) (y : Res)
+    (hy : ∀ x, w.res[r]? = some x → (resStat y, resNeed y) = (resStat x, resNeed x)) : Inert w0 { w with res := w.res.set! r y } :=
+  h.objSame rfl rfl rfl ⟨map_set!_same _ _ _ _ hy, fun _ => rfl, fun _ => rfl, fun _ => rfl, fun _ => rfl⟩
+theorem Inert.setResModify {w0 w : World} (h : Inert w0 w) (r : Nat) (g : Res → Res)
+    (hg : ∀ x, (resStat (g x), resNeed (g x)) = (resStat x, resNeed x)) : Inert w0 { w with res := w.res.modify r g } :=
+  h.objSame rfl rfl rfl ⟨map_modify_same _ _ _ _ hg, fun _ => rfl, fun _ => rfl, fun _ => rfl, fun _ => rfl⟩
+theorem Inert.setPoolsSet {w0 w : World} (h : Inert w0 w) (r : Nat) (y : Pool)
+    (hy : ∀ x, w.pools[r]? = some x → (poolStat y, poolNeed y) = (poolStat x, poolNeed x)) :
+    Inert w0 { w with pools := w.pools.set! r y } :=
+  h.objSame rfl rfl rfl ⟨fun _ => rfl, map_set!_same _ _ _ _ hy, fun _ => rfl, fun _ => rfl, fun _ => rfl⟩
+theorem Inert.setPoolsModify {w0 w : World} (h : Inert w0 w) (r : Nat) (g : Pool → Pool)
+    (hg : ∀ x, (poolStat (g x), poolNeed (g x)) = (poolStat x, poolNeed x)) : Inert w0 { w with pools := w.pools.modify r g } :=
+  h.objSame rfl rfl rfl ⟨fun _ => rfl, map_modify_same _ _ _ _ hg, fun _ => rfl, fun _ => rfl, fun _ => rfl⟩
+theorem Inert.setBufsSet {w0 w : World} (h : Inert w0 w) (r : Nat) (y : Buf)
+    (hy : ∀ x, w.bufs[r]? = some x → (bufStat y, bufNeed y) = (bufStat x, bufNeed x)) : Inert w0 { w with bufs := w.bufs.set! r y } :=
+  h.objSame rfl rfl rfl ⟨fun _ => rfl, fun _ => rfl, map_set!_same _ _ _ _ hy, fun _ => rfl, fun _ => rfl⟩
+theorem Inert.setBufsModify {w0 w : World} (h : Inert w0 w) (r : Nat) (g : Buf → Buf)
+    (hg : ∀ x, (bufStat (g x), bufNeed (g x)) = (bufStat x, bufNeed x)) : Inert w0 { w with bufs := w.bufs.modify r g } :=
+  h.objSame rfl rfl rfl ⟨fun _ => rfl, fun _ => rfl, map_modify_same _ _ _ _ hg, fun _ => rfl, fun _ => rfl⟩
+theorem Inert.setOqsSet {w0 w : World} (h : Inert w0 w) (r : Nat) (y : OQ)
+    (hy : ∀ x, w.oqs[r]? = some x → (oqStat y, oqNeed y) = (oqStat x, oqNeed x)) : Inert w0 { w with oqs := w.oqs.set! r y } :=
+  h.objSame rfl rfl rfl ⟨fun _ => rfl, fun _ => rfl, fun _ => rfl, map_set!_same _ _ _ _ hy, fun _ => rfl⟩
+theorem Inert.setOqsModify {w0 w : World} (h : Inert w0 w) (r : Nat) (g : OQ → OQ)
+    (hg : ∀ x, (oqStat (g x), oqNeed (g x)) = (oqStat x, oqNeed x)) : Inert w0 { w with oqs := w.oqs.modify r g } :=
+  h.objSame rfl rfl rfl ⟨fun _ => rfl, fun _ => rfl, fun _ => rfl, map_modify_same _ _ _ _ hg, fun _ => rfl⟩
+theorem Inert.setPqsSet {w0 w : World} (h : Inert w0 w) (r : Nat) (y : PQ)
+    (hy : ∀ x, w.pqs[r]? = some x → (pqStat y, pqNeed y) = (pqStat x, pqNeed x)) : Inert w0 { w with pqs := w.pqs.set! r y } :=
+  h.objSame rfl rfl rfl ⟨fun _ => rfl, fun _ => rfl, fun _ => rfl, fun _ => rfl, map_set!_same _ _ _ _ hy⟩
+theorem Inert.setPqsModify {w0 w : World} (h : Inert w0 w) (r : Nat) (g : PQ → PQ)
+    (hg : ∀ x, (pqStat (g x), pqNeed (g x)) = (pqStat x, pqNeed x)) : Inert w0 { w with pqs := w.pqs.modify r g } :=
+  h.objSame rfl rfl rfl ⟨fun _ => rfl, fun _ => rfl, fun _ => rfl, fun _ => rfl, map_modify_same _ _ _ _ hg⟩
+
+theorem Inert.reprioEv {w0 w : World} (h : Inert w0 w) {k : Nat} {v : Int} {ev' : EvQ}
+    (hr : reprioritize w.ev k v = .ok ev') : Inert w0 { w with ev := ev' } := by
+  have hinv := fun hi => (reprioritize_inv (q := w.ev) hi hr).1
+  refine h.trans ⟨hinv, rfl, fun _ => rfl, fun _ => Nat.le_refl _, fun _ => rfl, ?_⟩
+  unfold reprioritize at hr
+  split at hr
+  · cases hr
+  · simp only [Except.ok.injEq] at hr
+    subst hr
+    intro e he _
+    refine ⟨_, List.mem_map.2 ⟨e, he, rfl⟩, ?_, ?_⟩ <;> split <;> rfl
+
+/-! ### the tactic -/
+
+syntax "inert_step" : tactic
+macro_rules | `(tactic| inert_step) => `(tactic| dsimp only)
+macro_rules | `(tactic| inert_step) => `(tactic| (guard_world_lit; with_reducible apply Inert.setGvars))
+macro_rules | `(tactic| inert_step) => `(tactic| (guard_world_lit; with_reducible apply Inert.setFlags))
+macro_rules | `(tactic| inert_step) => `(tactic| (guard_world_lit; with_reducible refine Inert.setPqsModify ?_ _ _ (fun _ => rfl)))
+macro_rules | `(tactic| inert_step) => `(tactic| (guard_world_lit; with_reducible refine Inert.setPqsSet ?_ _ _ (by obj_side)))
+macro_rules | `(tactic| inert_step) => `(tactic| (guard_world_lit; with_reducible refine Inert.setOqsModify ?_ _ _ (fun _ => rfl)))
+macro_rules | `(tactic| inert_step) => `(tactic| (guard_world_lit; with_reducible refine Inert.setOqsSet ?_ _ _ (by obj_side)))
+macro_rules | `(tactic| inert_step) => `(tactic| (guard_world_lit; with_reducible refine Inert.setBufsModify ?_ _ _ (fun _ => rfl)))
+macro_rules | `(tactic| inert_step) => `(tactic| (guard_world_lit; with_reducible refine Inert.setBufsSet ?_ _ _ (by obj_side)))
+macro_rules | `(tactic| inert_step) => `(tactic| (guard_world_lit; with_reducible refine Inert.setPoolsModify ?_ _ _ (fun _ => rfl)))
+macro_rules | `(tactic| inert_step) => `(tactic| (guard_world_lit; with_reducible refine Inert.setPoolsSet ?_ _ _ (by obj_side)))
+macro_rules | `(tactic| inert_step) => `(tactic| (guard_world_lit; with_reducible refine Inert.setResModify ?_ _ _ (fun _ => rfl)))
+macro_rules | `(tactic| inert_step) => `(tactic| (guard_world_lit; with_reducible refine Inert.setResSet ?_ _ _ (by obj_side)))
+macro_rules | `(tactic| inert_step) => `(tactic| (guard_world_lit; with_reducible apply Inert.setEvWaiters))
+macro_rules | `(tactic| inert_step) => `(tactic| split)
+macro_rules | `(tactic| inert_step) => `(tactic| with_reducible apply Inert.sched_fst)
+macro_rules | `(tactic| inert_step) => `(tactic| (with_reducible refine Inert.modProc ?_ _ _ (fun _ => rfl)))
+macro_rules | `(tactic| inert_step) => `(tactic| with_reducible apply Inert.emit)
+macro_rules | `(tactic| inert_step) => `(tactic| with_reducible apply Inert.fail)
+macro_rules | `(tactic| inert_step) => `(tactic| with_reducible exact Inert.refl _)
+macro_rules | `(tactic| inert_step) => `(tactic| with_reducible assumption)
+macro "inert" : tactic => `(tactic| repeat' inert_step)
+
+/-! ### compound functions -/
+
+theorem Inert.wakeEventWaiters {w0 w : World} (h : Inert w0 w) (ps : List Pid) (sig : Int) :
+    Inert w0 (wakeEventWaiters w ps sig) := by
+  unfold Sim.wakeEventWaiters
+  exact Inert.foldl (fun w q => by inert) ps h
+macro_rules | `(tactic| inert_step) => `(tactic| with_reducible apply Inert.wakeEventWaiters)
+
+theorem Inert.wakeWaiters {w0 w : World} (h : Inert w0 w) (p : Pid) (sig : Int) : Inert w0 (wakeWaiters w p sig) := by
+  unfold Sim.wakeWaiters
+  exact Inert.foldl (fun w q => by inert) _ (by inert)
+macro_rules | `(tactic| inert_step) => `(tactic| with_reducible apply Inert.wakeWaiters)
+
+theorem Inert.recordRes {w0 w : World} (h : Inert w0 w) (r : Nat) : Inert w0 (recordRes w r) := by
+  unfold Sim.recordRes; inert
+theorem Inert.recordPool {w0 w : World} (h : Inert w0 w) (r : Nat) : Inert w0 (recordPool w r) := by
+  unfold Sim.recordPool; inert
+theorem Inert.recordBuf {w0 w : World} (h : Inert w0 w) (r : Nat) : Inert w0 (recordBuf w r) := by
+  unfold Sim.recordBuf; inert
+theorem Inert.recordOQ {w0 w : World} (h : Inert w0 w) (r : Nat) : Inert w0 (recordOQ w r) := by
+  unfold Sim.recordOQ; inert
+theorem Inert.recordPQ {w0 w : World} (h : Inert w0 w) (r : Nat) : Inert w0 (recordPQ w r) := by
+  unfold Sim.recordPQ; inert
+macro_rules | `(tactic| inert_step) => `(tactic| with_reducible apply Inert.recordRes)
+macro_rules | `(tactic| inert_step) => `(tactic| with_reducible apply Inert.recordPool)
+macro_rules | `(tactic| inert_step) => `(tactic| with_reducible apply Inert.recordBuf)
+macro_rules | `(tactic| inert_step) => `(tactic| with_reducible apply Inert.recordOQ)
+macro_rules | `(tactic| inert_step) => `(tactic| with_reducible apply Inert.recordPQ)
+
+theorem Inert.addAwait {w0 w : World} (h : Inert w0 w) (p : Pid) (a : Await) (ha : isGuardA a = false) :
+    Inert w0 (addAwait w p a) := by
+  unfold Sim.addAwait
+  exact h.modProc p _ (fun x => by simp [List.filter_cons, ha])
+
+theorem Inert.removeAwait_fst {w0 w : World} (h : Inert w0 w) (p : Pid) (a : Await) (ha : isGuardA a = false) :
+    Inert w0 (removeAwait w p a).1 := by
+  rw [removeAwait_fst_eq]
+  exact h.modProc p _ (fun x => removeFirst_filter_ne _ _ _ ha)
+
+theorem Inert.removeAwaitKind_fst {w0 w : World} (h : Inert w0 w) (p : Pid) (k : Await → Bool)
+    (hk : ∀ a, k a = true → isGuardA a = false) : Inert w0 (removeAwaitKind w p k).1 := by
+  rw [removeAwaitKind_fst_eq]
+  exact h.modProc p _ (fun x => rak_go_filter _ _ hk _)
+
+theorem Inert.removeHeld_fst {w0 w : World} (h : Inert w0 w) (p : Pid) (x : HoldRef) : Inert w0 (removeHeld w p x).1 := by
+  simp only [Sim.removeHeld]; inert
+macro_rules | `(tactic| inert_step) => `(tactic| with_reducible apply Inert.removeHeld_fst)
+
+theorem Inert.timerAdd_fst {w0 w : World} (h : Inert w0 w) (p : Pid) (d sig : Int) : Inert w0 (timerAdd w p d sig).1 := by
+  simp only [Sim.timerAdd]
+  exact (h.sched_fst _ _ _ _ _).addAwait p _ rfl
+macro_rules | `(tactic| inert_step) => `(tactic| with_reducible apply Inert.timerAdd_fst)
+
+theorem Inert.block_fst {w0 w : World} (h : Inert w0 w) (p : Pid) (f : Frame) : Inert w0 (block w p f).1 := by
+  unfold Sim.block; inert
+macro_rules | `(tactic| inert_step) => `(tactic| with_reducible apply Inert.block_fst)
+
+theorem Inert.setVar {w0 w : World} (h : Inert w0 w) (p : Pid) (v x : Nat) : Inert w0 (setVar w p v x) := by
+  unfold Sim.setVar; inert
+macro_rules | `(tactic| inert_step) => `(tactic| with_reducible apply Inert.setVar)
+
+theorem Inert.setRecording {w0 w : World} (h : Inert w0 w) (kind idx : Nat) (on : Bool) : Inert w0 (setRecording w kind idx on) := by
+  simp only [Sim.setRecording]; inert
+macro_rules | `(tactic| inert_step) => `(tactic| with_reducible apply Inert.setRecording)
+
+/-- `timer_cancel` of a handle that is not a grant -/
+theorem Inert.timerCancel_fst {w0 w : World} (h : Inert w0 w) (p : Pid) (k : Nat) (hng : NG w k) : Inert w0 (timerCancel w p k).1 := by
+  simp only [Sim.timerCancel]
+  exact (h.removeAwait_fst p _ rfl).evCancel_fst k hng
+
+/-- `timers_clear`: the TIME awaitables of `p` are not grants -/
+theorem Inert.timersClear {w0 w : World} (h : Inert w0 w) (p : Pid) (hng : ∀ k, Await.time k ∈ (w.proc p).awaits → NG w k) :
+    Inert w0 (timersClear w p) := by
+  unfold Sim.timersClear
+  refine Inert.cancelFold _ (h.modProc p _ (fun x => ?_)) ?_
+  · rw [List.filter_filter]; apply List.filter_congr; intro a _; cases a <;> rfl
+  · intro k hk
+    simp only [List.mem_filterMap] at hk
+    obtain ⟨a, ha, hak⟩ := hk
+    cases a with
+    | time k' =>
+      simp only [Option.some.injEq] at hak
+      subst hak
+      intro e he
+      exact hng _ ha e he
+    | _ => cases hak
+
 end CimbaModel.Sim.S3
